@@ -1722,8 +1722,13 @@ def isinstance_check(ex, st, ref, tp):
             # an abstract class object (or tuple of classes): nothing is known about the answer - an arbitrary truth
             # value (for a value with a term: a function of value and class object)
             if isinstance(v, SV) and hasattr(v, "t"):
-                f = ex.uf(f"isinstance_dyn_{v.t.sort()}_{tp.kind}".replace(" ", "_"), v.t.sort(), z3sort(("u", tp.kind)), z3.BoolSort())
+                tag = v.sort[1] if isinstance(v.sort, tuple) and v.sort[0] == "u" else str(v.t.sort()).replace(" ", "_")
+                f = ex.uf(f"isinstance_dyn_{tag}_{tp.kind}", v.t.sort(), z3sort(("u", tp.kind)), z3.BoolSort())  # same name as for an Opaque of that kind
                 return SV("bool", f(v.t, tp.t))
+            if isinstance(v, (str, bytes, int, float, bool)) or v is None:
+                # a concrete value: the answer is a function of (that value, class object) - the same at every evaluation
+                f = ex.uf(f"isinstance_dyn_const_{tp.kind}", z3.StringSort(), z3sort(("u", tp.kind)), z3.BoolSort())
+                return SV("bool", f(z3.StringVal(f"{type(v).__name__}:{v!r}"), tp.t))
             from .values import fresh
             return fresh("bool", "isinstance_dyn")
         raise U(f"isinstance against {tp!r}")
